@@ -283,11 +283,71 @@ func (c ConstantMap) Link(scope Scope, t TypeSpec) (ConstantValue, error) {
 			return nil, err
 		}
 
-		// TODO(abg): Duplicate key check
 		items[i] = ConstantValuePair{Key: key, Value: value}
 	}
 
+	keys := make([]ConstantValue, len(items))
+	for i, item := range items {
+		keys[i] = item.Key
+	}
+	if dup := duplicateScalar(keys); dup != nil {
+		return nil, constantValueCastError{
+			Value:  c,
+			Type:   t,
+			Reason: fmt.Errorf("the key %v is given more than once", describeScalar(dup)),
+		}
+	}
+
 	return ConstantMap(items), nil
+}
+
+// duplicateScalar returns a value of the list that is equal to an earlier
+// one, if the two are booleans, numbers, strings or enum items (given
+// directly or as a constant): such values are compared when the generated
+// map or set literal is compiled, and equal ones are rejected there.
+func duplicateScalar(values []ConstantValue) ConstantValue {
+	seen := make(map[interface{}]struct{}, len(values))
+	for _, v := range values {
+		k, ok := scalarKey(v, 0)
+		if !ok {
+			continue
+		}
+		if _, dup := seen[k]; dup {
+			return v
+		}
+		seen[k] = struct{}{}
+	}
+	return nil
+}
+
+func describeScalar(v ConstantValue) string {
+	switch x := v.(type) {
+	case EnumItemReference:
+		return x.Enum.Name + "." + x.Item.Name
+	case ConstReference:
+		return x.Target.Name
+	}
+	return fmt.Sprint(v)
+}
+
+func scalarKey(v ConstantValue, depth int) (interface{}, bool) {
+	switch x := v.(type) {
+	case ConstantBool:
+		return bool(x), true
+	case ConstantInt:
+		return int64(x), true
+	case ConstantDouble:
+		return float64(x), true
+	case ConstantString:
+		return string(x), true
+	case EnumItemReference:
+		return int64(x.Item.Value), true
+	case ConstReference:
+		if depth < 64 && x.Target.Value != nil {
+			return scalarKey(x.Target.Value, depth+1)
+		}
+	}
+	return nil, false
 }
 
 // ConstantSet represents a set of constant values from the Thrift file.
@@ -301,7 +361,6 @@ func (c ConstantSet) Link(scope Scope, t TypeSpec) (ConstantValue, error) {
 	}
 
 	// TODO(abg): Track whether things are linked so that we don't re-link here
-	// TODO(abg): Fail for duplicates
 	values := make([]ConstantValue, len(c))
 	for i, v := range c {
 		value, err := v.Link(scope, s.ValueSpec)
@@ -309,6 +368,14 @@ func (c ConstantSet) Link(scope Scope, t TypeSpec) (ConstantValue, error) {
 			return nil, err
 		}
 		values[i] = value
+	}
+
+	if dup := duplicateScalar(values); dup != nil {
+		return nil, constantValueCastError{
+			Value:  c,
+			Type:   t,
+			Reason: fmt.Errorf("the item %v is given more than once", describeScalar(dup)),
+		}
 	}
 
 	return ConstantSet(values), nil
